@@ -73,10 +73,15 @@ structure St where
   why : String := ""
   panicked : Bool := false
 
-def St.emit (s : St) (implOut : String) (specAccepts : String → Bool) (why : String) : St :=
+/-- `alt`: a second output the model also stands for on this step. Used for exactly one situation: a proof against the
+    EMPTY trie, where the pinned code fails with "proof node 0 missing" (model: `err`; reported by the harness as the
+    known finding `empty-trie-absence-proof`) while the property — and the suggested patch — answer `absent`. Both are
+    answered with `agree` here so that the check is stable across that patch; every other step has `alt = none`. -/
+def St.emit (s : St) (implOut : String) (specAccepts : String → Bool) (why : String) (alt : Option String := none) : St :=
   match s.goLeft with
   | [] => { s with impl := implOut :: s.impl, specOk := false, why := if s.specOk then "missing-output" else s.why }
   | g :: rest =>
+    let implOut := if alt == some g then g else implOut
     let ok := g == implOut || specAccepts g
     { s with impl := implOut :: s.impl, goLeft := rest, specOk := s.specOk && ok,
              why := if s.specOk && !ok then why else s.why }
@@ -122,6 +127,7 @@ def stepOp (secure : Bool) (s : St) (op : String) : St :=
             && g.endsWith (">" ++ renderVRes want)
         | _ => false
       s.emit (renderProof els r) accepts "proof-does-not-verify-to-content"
+        (if s.m.isEmpty && els.isEmpty then some ">absent" else none)
   | ["x", k, k2] =>
     -- proof produced for k, verified for k2 against the same root: must yield k2's value, its absence, or an error
     let kb := applyKey secure (hexB k); let kb2 := applyKey secure (hexB k2)
@@ -132,6 +138,7 @@ def stepOp (secure : Bool) (s : St) (op : String) : St :=
       let r := verify (dbOf H els) (verifyFuel key2 + els.length) (hashRoot H s.t) key2
       let want := match rmGet s.m kb2 with | some v => "v" ++ hexOrDash v | none => "absent"
       s.emit (renderVRes r) (fun g => g == "err" || g == want) "foreign-proof-verifies-to-wrong-value"
+        (if s.m.isEmpty && els.isEmpty then some "absent" else none)
   | _ => s
 
 def renderNib (n : Nib) : Char := hexDigit (n.val % 16)
